@@ -37,6 +37,11 @@ Init == l = 1
 Next == /\ l <= Len(Trace)
         /\ l' = l + 1
         /\ IF Judge(Trace[l]) THEN TRUE ELSE PrintT(<<"REJ", l, PropOf(Trace[l]), Dev(Trace[l])>>)
+        \* a New whose result is not the zero-valued resource of the type breaks C17 as well
+        \* ("a freshly created resource ... has that type's name, fields and all zero values")
+        /\ IF ~Judge(Trace[l]) /\ Trace[l].ev = "step" /\ Trace[l].op.op = "NewLike" /\ PropOf(Trace[l]) = "C18"
+              /\ FrameOK(Trace[l].pre, Trace[l].op, Trace[l].post)
+           THEN PrintT(<<"REJ", l, "C17", Dev(Trace[l])>>) ELSE TRUE
         /\ IF Trace[l].ev = "step" /\ ~(PreTyped(Trace[l]) /\ Enabled(Trace[l].pre, Trace[l].op))
            THEN PrintT(<<"NOTE", l, "C17", "step outside the domain (not enabled in the model): not judged">>) ELSE TRUE
 Spec == Init /\ [][Next]_l
